@@ -1709,6 +1709,12 @@ func genQ14(w *bufio.Writer, rng *prng, n int, depth int) {
 						got := string(redact.Sprintf(d, args(fwd{x})...))
 						q.eq("C14", "a Formatter forwarding with MakeFormat differs from a direct call (redact printer)", fn("strip", lit(got)), fn("escm", lit(want)), info)
 					}
+					if utf8.ValidRune(verb) {
+						// the same against redact's own direct rendering: every flag subset, '-' with '0' included
+						got := string(redact.Sprintf(d, args(fwd{x})...))
+						direct := string(redact.Sprintf(d, args(x)...))
+						q.eq("C14", "under redact's printer a Formatter forwarding with MakeFormat differs from the direct call", fn("strip", lit(got)), fn("strip", lit(direct)), info)
+					}
 				}
 			}
 		}
